@@ -108,21 +108,8 @@ class Bench:
         tf = {PC.__file__: TRACED} if case.get("trace") else None
         self.s = S.Scheduler(strategy, trace_files=tf, max_steps=60000)
         self.ft = CB.FakeTransport(self.s)
-        self.handed = []  # every message given to the transport (sent or dropped), in order
         ft = self.ft
-        orig = ft._send_user_message
-
-        def send_user_message(m):
-            n_w, n_d = len(ft.wire), len(ft.dropped)
-            orig(m)
-            if len(ft.wire) > n_w:
-                self.handed.append(ft.wire[-1])
-            elif len(ft.dropped) > n_d:
-                self.handed.append(ft.dropped[-1])
-            else:
-                raise HarnessError("fake transport neither sent nor dropped a message")
-
-        ft._send_user_message = send_user_message
+        self.handed = ft.handed  # every message given to the transport (sent or dropped), in order
         self.chan = CB.make_channel(self.s, ft, chanid=1, remote_chanid=7, out_window=case["win"], out_max_packet=case["maxpkt"])
         self.chan.settimeout(case["timeout"])
         self.calls = []  # dicts per sendall call
@@ -335,7 +322,7 @@ def execute(ctx, case):
 def run(ctx):
     ctx.set_budget(60, 840)
     ctx.assume("'loops forever' = send() returns 0 for 120 consecutive iterations, the last 100 of them after every other task has finished or is parked for good (state frozen)")
-    ctx.explore(case_st, lambda c: execute(ctx, c), ctx.scale(3000, 40000))
+    ctx.explore(case_st, lambda c: execute(ctx, c), ctx.scale(3000, 30000))
 
 
 def replay(ctx, case):
